@@ -195,6 +195,11 @@ def run(p, report, tier):
                                           "self.random_state (no seed-multiplier copy): its fit advances it and "
                                           "repeated identical calls differ" if not ok4
                                           else "random_state is not the raw constructor parameter", path=ev.path())
+            if is_pool_query:
+                # twins: two strategies constructed with equal parameters share the objects those parameters
+                # hold; a query that writes into one (a dict of keyword arguments, say) changes its twin
+                from . import c05 as _c05q
+                _c05q.check_entity(p, report, ci, f, it, r_param="R6.8", r_arr=None, r_est=None)
         diag |= it.diag
         for _k, _v in it.stats.items():
             callstats[_k] = callstats.get(_k, 0) + _v
@@ -221,6 +226,8 @@ def run(p, report, tier):
     from . import c05 as _c05
     report.analysed["member_copy_sites"] = _c05.check_member_copies(p, report, "R6.4")
     # ---- R6.7 a seed is never judged by its truthiness (whole package)
+    report.rule("R6.8", "a pool query never stores into / mutates an object held by a constructor parameter (the "
+                "dictionary of keyword arguments a twin strategy was built with, say): shared with C05 R5.1", floor=100)
     report.rule("R6.7", "no seed / random_state value is tested by truthiness anywhere in the package "
                 "(`random_state or x`, `if random_state:`, `if not seed`): the seed 0 is a seed", floor=40)
     SEEDY = ("random_state", "seed", "random_seed")
